@@ -551,6 +551,11 @@ func (r *Runner) doStep(st Step) bool {
 			return true // usual order: collection first
 		}
 		if e.Store != nil {
+			if e.Coll != nil {
+				// closed under the collection: a round in flight may end
+				// with ErrClosed, which is then a provoked report
+				r.aborted = true
+			}
 			if err := e.CloseStore(); err != nil {
 				r.viol("close", "store-close-error", "", err.Error())
 				return false
